@@ -9,14 +9,17 @@ quantities, and amplification inside third-party code (olefile, lzma, openpyxl)
 are NOT decidable by contracts on this repository (stated in evidence).
 """
 import ast
+import re
 
 import z3
 
 from pyvc import loader, ops
 from pyvc.contracts import FnContract, Raises
 from pyvc.flow import MustFacts, dotted, ground_obligation
-from pyvc.symex import Executor
-from pyvc.values import NONE, VBool, VExt, VInt, VRef, VSeq, VStr, VTuple, VUnk, ext_sort, fresh_name
+from pyvc.ops import Unsupported
+from pyvc.state import HeapObj
+from pyvc.symex import Executor, PathLimit
+from pyvc.values import NONE, VBool, VExt, VFunc, VInt, VRef, VSeq, VStr, VTuple, VUnk, ext_sort, fresh_name
 from pyvc.verify import p_ext, p_int, p_opt, p_str, p_unk, Maker
 from contracts import common, readfile
 
@@ -28,39 +31,249 @@ REPEAT_CAP = 1_048_576          # the largest repeat count a well-formed sheet c
 BSIZE = z3.Function("bytesio_size", ext_sort("BytesIO"), z3.IntSort())
 
 
+# A VC whose path is over-approximated (it branched on the truth of an unknown value, went through a state join, or bounds a
+# count of unknown origin) carries this marker in its goal: a solver model of such a VC is not a counterexample of the real code
+# (solve.SAT_UNTRUSTED), the obligation is `unknown` and the native replayer decides.  Proofs are unaffected.
+# (an uninterpreted *application*, so that pyvc.solve.random_refute does not instantiate it)
+NOTDEF = z3.Function("c12!model-not-definite", z3.IntSort(), z3.BoolSort())(z3.IntVal(0))
+JOINED = z3.Bool("truth!state-join")
+
+
+def _mentions(exprs, pred):
+    seen, stack = set(), list(exprs)
+    while stack:
+        x = stack.pop()
+        i = x.get_id()
+        if i in seen:
+            continue
+        seen.add(i)
+        if z3.is_quantifier(x):
+            stack.append(x.body())
+            continue
+        if z3.is_app(x):
+            if pred(x):
+                return True
+            stack.extend(x.children())
+    return False
+
+
+def _indefinite_path(pc):
+    """The path condition mentions the truth of an unknown value (fresh `truth!k`) or a state join."""
+    return _mentions(pc, lambda x: x.num_args() == 0 and x.decl().kind() == z3.Z3_OP_UNINTERPRETED and z3.is_bool(x) and _UNKNOWN_BOOL.match(x.decl().name()) is not None)
+
+
+def _untrusted(pc, goal):
+    return _mentions([goal], lambda x: x.decl().name().startswith("c12!"))
+
+
+from pyvc import solve as _solve  # noqa: E402
+if _untrusted not in _solve.SAT_UNTRUSTED:
+    _solve.SAT_UNTRUSTED.append(_untrusted)
+
+# fresh Booleans the engine introduces for the truth / comparison / membership / type test of an unknown value
+_UNKNOWN_BOOL = re.compile(r"^(truth|isnone|cmp|in|callable|isinstance|hasattr|isdigit|isalpha|isalnum|isspace|isupper|islower)!")
+_ATTR_SRC = re.compile(r"^int_from_input\[(.*)\]!\d+$")
+
+
+def _attr_sources(term):
+    """-> (input attributes an integer term is computed from, names of its other free constants)."""
+    srcs, other = set(), []
+
+    def visit(x):
+        if x.num_args() == 0 and x.decl().kind() == z3.Z3_OP_UNINTERPRETED:
+            m = _ATTR_SRC.match(x.decl().name())
+            if m:
+                srcs.update(a for a in m.group(1).split("+") if a)
+            else:
+                other.append(x.decl().name())
+        return False
+    _mentions([term], visit)
+    return srcs, other
+
+
 class AmpExecutor(readfile.ReadFileExecutor):
     """Adds the amplification obligation at every repetition with a symbolic count."""
+
+    def __init__(self, *a, only_repeat_helpers=False, helper_arg_sorts=None, **k):
+        super().__init__(*a, **k)
+        self.only_repeat_helpers = only_repeat_helpers      # inline_local only for helpers that contain a repetition
+        self.helper_arg_sorts = helper_arg_sorts            # inline_local only for helpers that receive an object of these sorts
+
+    def add_vc(self, kind, label, pc, goal, note="", loc=""):
+        if _indefinite_path(pc):
+            g = goal.t if isinstance(goal, VBool) else (z3.BoolVal(goal) if isinstance(goal, bool) else goal)
+            goal = z3.Or(g, NOTDEF)
+        return super().add_vc(kind, label, pc, goal, note, loc)
+
+    # ---- comprehensions the engine does not follow: no havoc of the enclosing locals
+    def _comprehension(self, n, st, sup):
+        """A comprehension / generator expression over a symbolic iterable is outside the engine's subset; its generic abstraction
+        havocs every local.  A comprehension cannot rebind a name of the enclosing function (unless it contains a walrus): its
+        value is unknown, it may raise, calls inside it may mutate heap objects -- the enclosing locals keep their values."""
+        npc = len(st.pc)
+        try:
+            return sup(n, st)
+        except Unsupported as e:
+            if not self.abstract or any(isinstance(x, ast.NamedExpr) for x in ast.walk(n)):
+                raise
+            del st.pc[npc:]
+            self.abstracted.append(str(e)[:160])
+            if any(isinstance(x, ast.Call) for x in ast.walk(n)):
+                for r in list(st.heap):
+                    o = st.heap[r]
+                    st.heap[r] = HeapObj("unk", None, o.cls, o.fresh)
+            self.exc_any(st.fork(), f"{self.loc(n)} abstracted comprehension")
+            return [(st, VUnk("comprehension"))]
+
+    def e_ListComp(self, n, st):
+        return self._comprehension(n, st, super().e_ListComp)
+
+    def e_GeneratorExp(self, n, st):
+        return self._comprehension(n, st, super().e_GeneratorExp)
+
+    def e_SetComp(self, n, st):
+        return self._comprehension(n, st, super().e_SetComp)
+
+    def e_DictComp(self, n, st):
+        return self._comprehension(n, st, super().e_DictComp)
+
+    # ---- local helpers executed in place; a helper the model breaks on stays an unknown call
+    def call(self, st, f, args, kwargs, node):
+        if isinstance(f, VFunc) and f.how == "repo" and not self.inline_calls and self.reg.get(f"{f.a}::{f.b}") is None and self.local_helper(f):
+            if self.helper_arg_sorts is not None and not any(isinstance(a, VExt) and a.sort in self.helper_arg_sorts for a in list(args) + list((kwargs or {}).values())):
+                return self.havoc_call(st, f"repo:{f.b}", args, node)
+            trial = st.fork()
+            n_sink = len(self.sinks[-1])
+            n_vcs = {k: len(o.vcs) for k, o in self.obls.items()}
+            n_paths = self.paths
+            try:
+                return super().call(trial, f, args, kwargs, node)
+            except (Unsupported, PathLimit):
+                raise
+            except Exception as e:  # noqa  -- a model / clause that does not fit the values at this call: not the code's fault
+                del self.sinks[-1][n_sink:]
+                for k in list(self.obls):
+                    if k not in n_vcs:
+                        del self.obls[k]
+                    else:
+                        del self.obls[k].vcs[n_vcs[k]:]
+                self.paths = n_paths
+                self.abstracted.append(f"{self.loc(node)} local helper {f.b} not executed in place ({type(e).__name__})")
+                return self.havoc_call(st, f"repo:{f.b}", args, node)
+        return super().call(st, f, args, kwargs, node)
+
+    def merge_states(self, states):
+        base = super().merge_states(states)
+        if len(states) > 1:
+            base.assume(JOINED)
+            # an integer that differs between the joined states is widened to an arbitrary integer (not to an unknown value) and
+            # keeps the input attributes it was read from: `n = 1 if raw is None else int(raw)`
+            for fi, fr in enumerate(base.frames):
+                for name, v in list(fr.env.items()):
+                    if isinstance(v, VUnk) and (getattr(v, "tag", "") or "").startswith("merge:"):
+                        vals = [s.frames[fi].env.get(name) if fi < len(s.frames) else None for s in states]
+                        if all(isinstance(x, VInt) and not x.is_bv for x in vals):
+                            srcs = set()
+                            for x in vals:
+                                srcs |= _attr_sources(x.t)[0]
+                            fr.env[name] = VInt(z3.Int(fresh_name(f"int_from_input[{'+'.join(sorted(srcs))}]" if srcs else "int_of_unknown")))
+        return base
+
+    def havoc_call(self, st, what, args, node):
+        r = super().havoc_call(st, what, args, node)
+        # `X.get(<constant attribute name>[, default])` on an unknown element: the value is that attribute of the input
+        if isinstance(node, ast.Call) and isinstance(node.func, ast.Attribute) and node.func.attr == "get" and args and isinstance(args[0], VStr):
+            k = args[0].const()
+            if k:
+                return [(s, VUnk("attr:" + k.rsplit("}", 1)[-1])) for (s, _v) in r]
+        if isinstance(node, ast.Call) and isinstance(node.func, ast.Attribute) and node.func.attr == "get" and what.startswith("unknown:") and args:
+            return [(s, VUnk("attr:")) for (s, _v) in r]      # an attribute whose name is not a constant here (a parameter)
+        return r
 
     def b_int(self, st, args, kwargs, node):
         if args and isinstance(args[0], VUnk):
             self.exc_any(st.fork(), f"{self.loc(node)} int(unknown)")
-            return [(st, VInt(z3.Int(fresh_name("int_from_input"))))]
+            tag = getattr(args[0], "tag", "") or ""
+            if tag.startswith("attr:"):
+                return [(st, VInt(z3.Int(fresh_name(f"int_from_input[{tag[5:]}]"))))]
+            return [(st, VInt(z3.Int(fresh_name("int_of_unknown"))))]
         return super().b_int(st, args, kwargs, node)
 
-    def mult_ordinal(self, node):
-        """Ordinal of this `*` among the multiplications of the enclosing function (stable under line shifts)."""
-        fnode = self.cur_fn_stack[-1] if self.cur_fn_stack else None
-        if fnode is None:
-            return 0
-        mults = [n for n in ast.walk(fnode) if isinstance(n, ast.BinOp) and isinstance(n.op, ast.Mult)]
-        mults.sort(key=lambda n: (n.lineno, n.col_offset))
-        for i, n in enumerate(mults):
-            if n is node:
-                return i
-        return 0
+    def b_len(self, st, args, kwargs, node):
+        if args and isinstance(args[0], VExt) and args[0].sort == "BytesIOContent":
+            b = st.ghost.get(("content_of", args[0].t.get_id()))
+            if b is not None:
+                return [(st, VInt(BSIZE(b)))]
+        return super().b_len(st, args, kwargs, node)
+
+    def local_helper(self, f):
+        """Any small function of the module under verification that has no contract of its own is executed in place (the engine's
+        rule asks for a leading underscore; a helper is a helper whatever its name).  `only_repeat_helpers`: inline_local restricted to the helpers that matter for the amplification obligations: a helper is
+        executed in place when it (or a local helper it calls) contains a repetition `*`; everything else stays an unknown call."""
+        if not getattr(self, "inline_local", False) or f.a != self.module.rel or self.inline_depth >= 3:
+            return False
+        name = f.b.split(".")[-1]
+        if name.startswith("__"):
+            return False
+        fnode = self.module.functions.get(f.b)
+        if fnode is None or any(fnode is x for x in self.cur_fn_stack) or sum(1 for _ in ast.walk(fnode)) > 700:
+            return False
+        if not self.only_repeat_helpers:
+            return True
+        return self._has_repeat(f.b, 0)
+
+    def _has_repeat(self, qual, depth):
+        fnode = self.module.functions.get(qual)
+        if fnode is None or depth > 3:
+            return False
+        for n in ast.walk(fnode):
+            if isinstance(n, ast.BinOp) and isinstance(n.op, ast.Mult) and not (isinstance(n.left, ast.Constant) and isinstance(n.right, ast.Constant)):
+                return True
+            if isinstance(n, ast.AugAssign) and isinstance(n.op, ast.Mult):
+                return True
+        for n in ast.walk(fnode):
+            if isinstance(n, ast.Call) and isinstance(n.func, ast.Name) and n.func.id.startswith("_") and n.func.id != qual and n.func.id in self.module.functions:
+                if self._has_repeat(n.func.id, depth + 1):
+                    return True
+        return False
 
     def binop(self, st, op, a, b, node, inplace=False):
         if op == "Mult":
             for seq, n in ((a, b), (b, a)):
                 seq_like = isinstance(seq, (VStr, VTuple)) or (isinstance(seq, VRef) and st.obj(seq.ref).kind in ("list", "bytearray"))
                 if seq_like and isinstance(n, (VInt, VUnk)) and (isinstance(n, VUnk) or n.const() is None):
-                    nt = ops.int_term(n) if isinstance(n, VInt) else z3.Int(fresh_name("unknown_count"))
-                    self.add_vc("amp-bounded", f"repeat-site-{self.mult_ordinal(node)}", st.pc, nt <= REPEAT_CAP,
+                    nt = ops.int_term(n) if isinstance(n, VInt) else z3.Int(fresh_name("int_of_unknown"))
+                    srcs, unknown_src = _attr_sources(nt)
+                    goal = nt <= REPEAT_CAP
+                    if unknown_src:
+                        goal = z3.Or(goal, NOTDEF)      # a count of unknown origin (result of an unmodelled call, a joined value)
+                    key = "repeat-site" + (f"[{'+'.join(sorted(srcs))}]" if srcs else "")
+                    # provisional label with the source position; `post_report` turns positions into ordinals per key
+                    self.add_vc("amp-bounded", f"{key}@{getattr(node, 'lineno', 0):06d}:{getattr(node, 'col_offset', 0):04d}", st.pc, goal,
                                 note=f"{self.loc(node)} repetition count comes from the input and is not bounded on this path", loc=self.loc(node))
                     if isinstance(seq, VStr):
                         return [(st, VStr(z3.String(fresh_name("repeated"))))]
                     return [(st, VUnk("repeated"))]
         return super().binop(st, op, a, b, node, inplace)
+
+
+def post_report(contract, rep):
+    """Amplification sites: ids keyed by the input attribute(s) the count is read from (stable under moving the site into a
+    helper, renaming locals, reordering); several sites with the same key are numbered in source order (#2, #3, ...); sites whose
+    count has no attribute provenance keep the ordinal form `repeat-site-k`."""
+    groups = {}
+    for o in rep.obligations:
+        if o.get("kind") == "amp-bounded" and "@" in o["id"].rsplit("#", 1)[-1]:
+            head, label = o["id"].rsplit("#", 1)
+            key, pos = label.rsplit("@", 1)
+            groups.setdefault((head, key), []).append((pos, o))
+    for (head, key), items in groups.items():
+        items.sort(key=lambda t: t[0])
+        for k, (_pos, o) in enumerate(items):
+            if key == "repeat-site":
+                o["id"] = f"{head}#repeat-site-{k}"
+            else:
+                o["id"] = f"{head}#{key}" + (f"#{k + 1}" if k else "")
 
 
 EXECUTOR = AmpExecutor
@@ -69,11 +282,99 @@ EXECUTOR_KW = {}
 
 def m_seek2(ex, st, obj, args, kwargs, node):
     """BytesIO.seek(off[, whence]): whence=os.SEEK_END positions at the size of the buffer."""
+    if len(args) == 1 and "whence" in (kwargs or {}):
+        args = list(args) + [kwargs["whence"]]
+    if len(args) == 2 and isinstance(args[1], VInt) and args[1].const() == 0:
+        args = args[:1]
     if len(args) == 2:
+        if not (isinstance(args[1], VInt) and args[1].const() == 2):
+            common.havoc_pos(ex, st, obj)          # SEEK_CUR / unknown whence: the position is not tracked
+            return [(st, VInt(st.ghost[common.pos_key(obj)]))]
         st.assume(BSIZE(obj.t) >= 0)
         st.ghost[common.pos_key(obj)] = BSIZE(obj.t) + ops.int_term(args[0]) if isinstance(args[0], VInt) else BSIZE(obj.t)
         return [(st, VInt(st.ghost[common.pos_key(obj)]))]
     return common.m_seek(ex, st, obj, args, kwargs, node)
+
+
+def m_getvalue(ex, st, obj, args, kwargs, node):
+    """BytesIO.getvalue() / getbuffer(): the whole content; its length is the size of the buffer."""
+    st.assume(BSIZE(obj.t) >= 0)
+    r = VExt("BytesIOContent")
+    st.ghost[("content_of", r.t.get_id())] = obj.t
+    return [(st, r)]
+
+
+def a_nbytes(ex, st, obj):
+    b = st.ghost.get(("content_of", obj.t.get_id()))
+    return VInt(BSIZE(b)) if b is not None else VUnk("nbytes")
+
+
+LSIZE = z3.Function("size_of_the_path_entry_itself", readfile.PathS, z3.IntSort())     # what lstat() reports: for a symlink, not the size that is read
+
+
+def m_lstat(ex, st, obj, args, kwargs, node):
+    """Path.lstat() / Path.stat(follow_symlinks=False): ASSUMED -- OSError family or the size of the path entry itself, which for a
+    symbolic link is unrelated to the size of the file that open() reads."""
+    r = readfile.m_stat(ex, st, obj, args, kwargs, node)
+    out = []
+    for (s, v) in r:
+        s.assume(LSIZE(obj.t) >= 0)
+        s.ghost[("lstat_of", v.t.get_id())] = obj.t
+        out.append((s, v))
+    return out
+
+
+def m_stat2(ex, st, obj, args, kwargs, node):
+    fs = (kwargs or {}).get("follow_symlinks")
+    if fs is not None and not (isinstance(fs, VBool) and fs.const() is True):
+        return m_lstat(ex, st, obj, args, kwargs, node)
+    return readfile.m_stat(ex, st, obj, args, kwargs, node)
+
+
+def a_st_size2(ex, st, obj):
+    p = st.ghost.get(("lstat_of", obj.t.get_id()))
+    if p is not None:
+        return VInt(LSIZE(p))
+    return readfile.a_st_size(ex, st, obj)
+
+
+def _as_path(ex, st, a):
+    """The Path object a size function is applied to: a Path, str(Path) or the string a Path is built from."""
+    if isinstance(a, VExt) and a.sort == "Path":
+        return a
+    if isinstance(a, VStr):
+        t = a.t
+        if z3.is_app(t) and t.decl().name() == readfile.PSTR.name() and t.num_args() == 1:
+            p = VExt("Path")
+            st.assume(p.t == t.arg(0))
+            return p
+        return readfile.new_path(ex, st, [a], {}, None)[0][1]
+    return None
+
+
+def x_getsize(ex, st, args, kwargs, node):
+    """os.path.getsize(p) / os.stat(p): the same size Path(p).stat() reports (follows symlinks)."""
+    p = _as_path(ex, st, args[0]) if args else None
+    if p is None:
+        return ex.havoc_call(st, "os.path.getsize", args, node)
+    out = []
+    for (s, r) in readfile.m_stat(ex, st, p, [], {}, node):
+        out.append((s, VInt(readfile.FSIZE(p.t))))
+    return out
+
+
+def x_os_stat(ex, st, args, kwargs, node):
+    p = _as_path(ex, st, args[0]) if args else None
+    if p is None:
+        return ex.havoc_call(st, "os.stat", args, node)
+    return m_stat2(ex, st, p, args[1:], kwargs, node)
+
+
+def x_os_lstat(ex, st, args, kwargs, node):
+    p = _as_path(ex, st, args[0]) if args else None
+    if p is None:
+        return ex.havoc_call(st, "os.lstat", args, node)
+    return m_lstat(ex, st, p, args[1:], kwargs, node)
 
 
 def contracts(reg):
@@ -81,7 +382,11 @@ def contracts(reg):
     common.install_bytesio(reg)
     common.install_clock(reg)
     reg.method_models[("BytesIO", "seek")] = m_seek2
+    reg.method_models[("BytesIO", "getvalue")] = m_getvalue
+    reg.method_models[("BytesIO", "getbuffer")] = m_getvalue
+    reg.attr_models[("BytesIOContent", "nbytes")] = a_nbytes
     reg.ext_models[("const", "os.SEEK_END")] = VInt(2)
+    reg.ext_models[("const", "io.SEEK_END")] = VInt(2)
     out = []
     from contracts import C07
     for c in C07.contracts(reg):
@@ -89,6 +394,15 @@ def contracts(reg):
             c.assumed = True
             c.note = "verified by the C07 pack"
             out.append(c)
+    # (after C07.contracts: it re-installs the shared read_file models)
+    reg.method_models[("BytesIO", "seek")] = m_seek2
+    # further ways to take the size of the file (all follow symlinks like open() does, except lstat)
+    reg.method_models[("Path", "stat")] = m_stat2
+    reg.method_models[("Path", "lstat")] = m_lstat
+    reg.attr_models[("StatResult", "st_size")] = a_st_size2
+    reg.ext_models["os.path.getsize"] = x_getsize
+    reg.ext_models["os.stat"] = x_os_stat
+    reg.ext_models["os.lstat"] = x_os_lstat
 
     # ---- read_file: refuses exactly files larger than max_file_size (0 or negative disables), before opening
     def the_path(c):
@@ -98,11 +412,15 @@ def contracts(reg):
                 return v
         return None
 
+    # no stat()/getsize()/os.stat() of the path was seen on this path of the function: whether the file is too large is not
+    # known to the model (the size may be taken in a way the model does not follow) -> never a definite counterexample
+    size_unrecognised = z3.Function("c12!size-source-not-recognised", z3.IntSort(), z3.BoolSort())(z3.IntVal(0))
+
     def too_large(c):
         p = the_path(c)
-        if p is None:
-            return z3.BoolVal(False)
         m = c.args["max_file_size"].t
+        if p is None:
+            return z3.And(m > 0, size_unrecognised)
         return z3.And(m > 0, readfile.FSIZE(p) > m)
 
     def own_raise(c):
@@ -120,7 +438,8 @@ def contracts(reg):
             return z3.BoolVal(True)
         if c.exc.attrs.get("site") == "Path.stat":
             return z3.BoolVal(True)      # size unknown: stat() itself failed
-        return z3.Not(too_large(c))
+        # (the function's own ExtractionFileTooLargeError is not "anything else": it must satisfy the first alternative)
+        return z3.And(z3.Not(too_large(c)), z3.Or(c.exc.tidx != c.ex.uni.index[TOOLARGE], z3.BoolVal(not own_raise(c))))
 
     out.append(FnContract(
         target=f"{readfile.INIT}::read_file",
@@ -128,16 +447,20 @@ def contracts(reg):
         generator=True,
         ensures=[("accepted-only-within-limit", lambda c: z3.Not(too_large(c))),
                  ("size-taken-from-stat-of-the-given-path-when-limit-enabled",
-                  lambda c: z3.BoolVal(True) if the_path(c) is not None else c.args["max_file_size"].t <= 0)],
+                  lambda c: z3.BoolVal(True) if the_path(c) is not None else z3.Or(c.args["max_file_size"].t <= 0, NOTDEF))],
         raises=[Raises(TOOLARGE, when=rf_toolarge, label="too large: before the file is opened"),
                 Raises("Exception", sub=True, when=rf_other, label="anything else only if the size check passed")],
         note="size > max_file_size > 0  <=>  ExtractionFileTooLargeError before open(); max_file_size <= 0 disables the check",
     ))
-    EXECUTOR_KW[f"{readfile.INIT}::read_file"] = {"abstract": True, "inline_calls": False}
+    EXECUTOR_KW[f"{readfile.INIT}::read_file"] = {"abstract": True, "inline_calls": False, "inline_local": True}
 
     # ---- 7z archive limit: > MAX_7Z_FILE_SIZE refused before the archive is parsed; == accepted
     arch = loader.module(ARCH)
-    max7z = ast.literal_eval(ast.unparse(arch.assigns["MAX_7Z_FILE_SIZE"])) if isinstance(arch.assigns["MAX_7Z_FILE_SIZE"], ast.Constant) else eval(compile(ast.Expression(arch.assigns["MAX_7Z_FILE_SIZE"]), "x", "eval"), {})
+    max7z = const_value(arch, "MAX_7Z_FILE_SIZE")
+    if not isinstance(max7z, int):
+        # not a closed constant expression: the limit is whatever the module constant is (same symbol in code and contract)
+        max7z = z3.Int("MAX_7Z_FILE_SIZE")
+        reg.module_consts[(ARCH, "MAX_7Z_FILE_SIZE")] = VInt(max7z)
 
     def new_7z(ex, st, args, kwargs, node):
         st.ghost["sevenzip_opened"] = st.ghost.get("sevenzip_opened", 0) + 1
@@ -164,10 +487,11 @@ def contracts(reg):
         generator=True,
         ensures=[("accepted-only-within-archive-limit", lambda c: z3.Not(big7(c)))],
         raises=[Raises(TOOLARGE, when=z7_toolarge, label="archive above the limit: refused before it is parsed"),
-                Raises("Exception", sub=True, when=lambda c: z3.BoolVal(True) if c.exc is None else z3.Not(big7(c)))],
+                Raises("Exception", sub=True, when=lambda c: z3.BoolVal(True) if c.exc is None else
+                       z3.And(z3.Not(big7(c)), z3.Or(c.exc.tidx != c.ex.uni.index[TOOLARGE], z3.BoolVal("site" in c.exc.attrs))))],
         note=f"archive size > {max7z} bytes  <=>  ExtractionFileTooLargeError before SevenZipFile is constructed",
     ))
-    EXECUTOR_KW[f"{ARCH}::_extract_from_7z_optimized"] = {"abstract": True, "inline_calls": False}
+    EXECUTOR_KW[f"{ARCH}::_extract_from_7z_optimized"] = {"abstract": True, "inline_calls": False, "inline_local": True, "helper_arg_sorts": ("BytesIO",)}
 
     # ---- amplification sites (ODF text:s count, ODS repeated cells / rows)
     def elem_params(names):
@@ -180,38 +504,121 @@ def contracts(reg):
         raises=[Raises("Exception", sub=True)], modifies=("parts",),
         note="amplification obligation at the space-repetition site (text:s count)",
     ))
-    EXECUTOR_KW[f"{SHARED}::_append_element_text"] = {"abstract": True, "inline_calls": False}
+    EXECUTOR_KW[f"{SHARED}::_append_element_text"] = {"abstract": True, "inline_calls": False, "inline_local": True, "only_repeat_helpers": True}
     out.append(FnContract(
         target=f"{ODS}::_extract_sheet",
         params=[("ctx", p_unk()), ("table", p_unk()), ("sheet_number", p_int()), ("image_counter", p_int())],
         raises=[Raises("Exception", sub=True)],
         note="amplification obligations at the repeated-cell / repeated-row expansion sites",
     ))
-    EXECUTOR_KW[f"{ODS}::_extract_sheet"] = {"abstract": True, "inline_calls": False, "merge": True}
+    EXECUTOR_KW[f"{ODS}::_extract_sheet"] = {"abstract": True, "inline_calls": False, "merge": True, "inline_local": True}
     return out
 
 
 # ------------------------------------------------------------------ policy --
+def const_value(mod, name, depth=0):
+    """Value of a module-level constant: its defining expression evaluated over the other module-level constants it names
+    (`_MB = 1024 * 1024; LIMIT = 100 * _MB`); None when it is not a closed arithmetic expression."""
+    e = mod.assigns.get(name)
+    if e is None or depth > 6:
+        return None
+    env = {}
+    for n in ast.walk(e):
+        if isinstance(n, ast.Name):
+            if n.id in ("min", "max", "int", "abs", "pow", "round"):
+                continue
+            v = const_value(mod, n.id, depth + 1)
+            if v is None:
+                return None
+            env[n.id] = v
+        elif isinstance(n, (ast.Call, ast.Attribute, ast.Lambda, ast.Await, ast.Yield)) and not (isinstance(n, ast.Call) and isinstance(n.func, ast.Name)
+                                                                                               and n.func.id in ("min", "max", "int", "abs", "pow", "round")):
+            return None
+    try:
+        return eval(compile(ast.Expression(e), "<const>", "eval"), {"__builtins__": {"min": min, "max": max, "int": int, "abs": abs, "pow": pow, "round": round}}, env)
+    except Exception:  # noqa
+        return None
+
+
+def _is_logger_call(n):
+    return isinstance(n, ast.Call) and isinstance(n.func, ast.Attribute) and dotted(n.func).split(".")[0] in ("logger", "logging", "log", "_logger", "LOGGER")
+
+
+def regular_members_only(arch, oid):
+    """tar: the declared size is the size that is read only for regular members (a link declares 0 and reads its target):
+    `tf.extractfile(V)` must be dominated by `V.isreg()` (guard read semantically: negation, De Morgan, helper, alias)."""
+    from contracts import guardlib
+    f = arch.functions.get("_extract_from_tar_optimized")
+    if f is None:
+        return ground_obligation(oid, False, "function missing", ARCH, definite=False)
+    from contracts import archive_guards
+    reads, arg_of = archive_guards.member_reads(arch, f, ("extractfile", "extract", "extractall"))
+    odd = [n for n in reads if not isinstance(arg_of.get(id(n)), ast.Name)]
+    if not reads or odd:
+        return ground_obligation(oid, False, "no member read through a member object found" if not reads else
+                                 f"line {odd[0].lineno}: `{ast.unparse(odd[0])}` does not name the member it reads", ARCH, definite=False)
+
+    def gen_cond(test, branch):
+        out = []
+        for t in guardlib.truths(guardlib.implied(test, branch, arch, f), True):
+            e = ast.parse(t, mode="eval").body
+            if isinstance(e, ast.Call) and not e.args and isinstance(e.func, ast.Attribute) and e.func.attr in ("isreg", "isfile") and isinstance(e.func.value, ast.Name):
+                out.append(("isreg", e.func.value.id))
+        return out
+
+    MF = guardlib.carrying(MustFacts, guardlib.carried_facts(f, gen_cond, MustFacts))
+    mf = MF(gen_cond=gen_cond, need=lambda n: [(("isreg", arg_of[id(n)].id), f"line {n.lineno}")] if any(n is r for r in reads) else [],
+            kill_names=lambda fact: [fact[1]])
+    res = mf.run(f)
+    bad = [r for r in res if not r.ok]
+    return ground_obligation(oid, bool(res) and not bad, "; ".join(f"{r.desc}: the member read here is not known to be a regular file (a link member declares size 0 "
+                                                                    f"and reads its target)" for r in bad) or f"{len(res)} member read(s), each dominated by isreg()",
+                             ARCH, definite=False)
+
+
+def entry_size_guard(arch, oid):
+    """_process_archive_entry: the entry's bytes are handed on (wrapped, passed to an extractor) only on paths where
+    `len(<bytes parameter>) > MAX_ARCHIVE_FILE_SIZE` was evaluated false."""
+    from contracts import guardlib
+    f = arch.functions.get("_process_archive_entry")
+    if f is None:
+        return ground_obligation(oid, False, "function missing", ARCH, definite=False)
+    params = [a for a in f.args.posonlyargs + f.args.args + f.args.kwonlyargs]
+    data = [a.arg for a in params if a.annotation is not None and ast.unparse(a.annotation) in ("bytes", "bytes | bytearray", "bytearray", "memoryview", "bytes | memoryview")]
+    if not data:
+        return ground_obligation(oid, False, "no bytes parameter found", ARCH, definite=False)
+
+    def gen_cond(test, branch):
+        out = []
+        for x in guardlib.upper_bounded(guardlib.implied(test, branch, arch, f), ("MAX_ARCHIVE_FILE_SIZE",)):
+            e = ast.parse(x, mode="eval").body
+            if isinstance(e, ast.Call) and isinstance(e.func, ast.Name) and e.func.id == "len" and len(e.args) == 1 and isinstance(e.args[0], ast.Name):
+                out.append(("within-entry-limit", e.args[0].id))
+        return out
+
+    def need(n):
+        if not isinstance(n, ast.Call) or _is_logger_call(n) or (isinstance(n.func, ast.Name) and n.func.id == "len"):
+            return []
+        used = {x.id for a in list(n.args) + [k.value for k in n.keywords] for x in ast.walk(a) if isinstance(x, ast.Name)}
+        # `len(P)` inside an argument is a use of the size, not of the content
+        for a in list(n.args) + [k.value for k in n.keywords]:
+            for c in ast.walk(a):
+                if isinstance(c, ast.Call) and isinstance(c.func, ast.Name) and c.func.id == "len" and len(c.args) == 1 and isinstance(c.args[0], ast.Name):
+                    if sum(1 for x in ast.walk(a) if isinstance(x, ast.Name) and x.id == c.args[0].id) == 1:
+                        used.discard(c.args[0].id)
+        return [(("within-entry-limit", p), f"line {n.lineno}") for p in data if p in used]
+
+    mf = MustFacts(gen_cond=gen_cond, need=need, kill_names=lambda fact: [fact[1]])
+    res = mf.run(f)
+    bad = [r for r in res if not r.ok]
+    return ground_obligation(oid, bool(res) and not bad, "; ".join(f"{r.desc}: the entry's bytes are handed on before their size was checked against MAX_ARCHIVE_FILE_SIZE"
+                                                                    for r in bad) or (f"{len(res)} use(s) of the entry's bytes, each dominated by the size check" if res
+                                                                                      else "the entry's bytes are not handed on in this function"), ARCH, definite=False)
+
+
 def policy(repo, tier):
     obls, fns = [], []
     arch = loader.module(ARCH, repo)
-
-    def size_guard(fn_name, size_expr_ok, read_pred, label):
-        f = arch.functions.get(fn_name)
-        if f is None:
-            obls.append(ground_obligation(f"C12/archive_extractor.py::{fn_name}/typestate#{label}", False, "function missing", definite=False))
-            return
-        def gen_cond(test, branch):
-            t = ast.unparse(test)
-            if size_expr_ok(t) and branch is False:
-                return ["within-member-limit"]
-            return []
-        mf = MustFacts(gen_cond=gen_cond, need=lambda n: [("within-member-limit", f"line {n.lineno}")] if isinstance(n, ast.Call) and read_pred(n) else [],
-                       kill_names=lambda fact: ["info", "member", "file_info", "file_data"])
-        res = mf.run(f)
-        obls.append(ground_obligation(f"C12/archive_extractor.py::{fn_name}/typestate#{label}", bool(res) and all(r.ok for r in res),
-                                      "; ".join(r.desc for r in res if not r.ok) or f"{len(res)} read site(s) dominated", ARCH))
-        fns.append(dict(arch.fn_info(fn_name), obligations=1))
 
     from contracts import archive_guards
     for o, info in archive_guards.zip_and_tar("C12", repo):
@@ -219,47 +626,38 @@ def policy(repo, tier):
         if info:
             fns.append(dict(info, obligations=1))
     # the declared size is the size that is read only for regular members (links declare 0 and read their target)
-    f = arch.functions.get("_extract_from_tar_optimized")
-    if f is not None:
-        def gen_cond(test, branch):
-            t = ast.unparse(test)
-            if t == "not member.isreg()" and branch is False:
-                return ["isreg(member)"]
-            if t == "member.isreg()" and branch is True:
-                return ["isreg(member)"]
-            return []
-        mf = MustFacts(gen_cond=gen_cond,
-                       need=lambda n: [("isreg(member)", f"line {n.lineno}")] if isinstance(n, ast.Call) and isinstance(n.func, ast.Attribute)
-                       and n.func.attr == "extractfile" else [], kill_names=lambda fact: ["member"])
-        res = mf.run(f)
-        obls.append(ground_obligation("C12/archive_extractor.py::_extract_from_tar_optimized/typestate#size-check-applies-to-regular-members-only",
-                                      bool(res) and all(r.ok for r in res), "; ".join(r.desc for r in res if not r.ok), ARCH))
-    size_guard("_process_archive_entry", lambda t: t == "len(file_data) > MAX_ARCHIVE_FILE_SIZE",
-               lambda n: dotted(n.func) in ("extractor", "_get_file_extractor_cached"),
-               "entry-size-check-dominates-extraction")
-    # 7z: members above the limit must not be decompressed: extraction must be restricted to the selected members
+    obls.append(regular_members_only(arch, "C12/archive_extractor.py::_extract_from_tar_optimized/typestate#size-check-applies-to-regular-members-only"))
+    obls.append(entry_size_guard(arch, "C12/archive_extractor.py::_process_archive_entry/typestate#entry-size-check-dominates-extraction"))
+    if "_process_archive_entry" in arch.functions:
+        fns.append(dict(arch.fn_info("_process_archive_entry"), obligations=1))
+    # 7z: members above the limit must not be decompressed: extraction must be restricted to the selected members.
+    # Shape check (an extract call that carries a member selection besides the destination): not recognised -> unknown, the
+    # native probe (size-filtered members must not reach the disk) decides.
     f = arch.functions.get("_extract_from_7z_optimized")
     ok, why = False, "function missing"
     if f is not None:
-        calls = [n for n in ast.walk(f) if isinstance(n, ast.Call) and isinstance(n.func, ast.Attribute) and n.func.attr in ("extractall", "extract")]
-        unrestricted = [n for n in calls if not any("files_to_process" in ast.unparse(a) for a in list(n.args) + [k.value for k in n.keywords])]
+        fs = [f] + [arch.functions[c.func.id] for c in ast.walk(f) if isinstance(c, ast.Call) and isinstance(c.func, ast.Name) and c.func.id.startswith("_")
+                    and c.func.id in arch.functions and c.func.id != f.name]
+        calls = [n for g in fs for n in ast.walk(g) if isinstance(n, ast.Call) and isinstance(n.func, ast.Attribute) and n.func.attr in ("extractall", "extract")]
+        unrestricted = [n for n in calls if len(n.args) + len([k for k in n.keywords if k.arg not in ("path",)]) < 2 and not any(k.arg in ("targets", "members", "names") for k in n.keywords)]
         ok = bool(calls) and not unrestricted
-        why = "; ".join(f"line {n.lineno}: {ast.unparse(n)} decompresses and writes every member, not only the ones that passed the size filter" for n in unrestricted)
-    obls.append(ground_obligation("C12/archive_extractor.py::_extract_from_7z_optimized/policy#oversize-members-are-not-decompressed", ok, why, ARCH))
-    # constants are the documented ones
-    def const(name):
-        try:
-            return eval(compile(ast.Expression(arch.assigns[name]), "x", "eval"), {})
-        except Exception:  # noqa
-            return None
-    obls.append(ground_obligation("C12/archive_extractor.py::limits/module-invariant#documented-values",
-                                  const("MAX_7Z_FILE_SIZE") == 100 * 1024 * 1024 and const("MAX_MEMORY_SIZE") == 10 * 1024 * 1024
-                                  and const("MAX_ARCHIVE_FILE_SIZE") == 50 * 1024 * 1024,
-                                  f"{const('MAX_7Z_FILE_SIZE')}, {const('MAX_MEMORY_SIZE')}, {const('MAX_ARCHIVE_FILE_SIZE')}", ARCH, kind="module-invariant", backend="ground"))
-    # XML parsing goes through defusedxml
+        why = "; ".join(f"line {n.lineno}: {ast.unparse(n)} decompresses and writes every member, not only the ones that passed the size filter" for n in unrestricted) \
+            or ("no extract call found" if not calls else "")
+    obls.append(ground_obligation("C12/archive_extractor.py::_extract_from_7z_optimized/policy#oversize-members-are-not-decompressed", ok, why, ARCH, definite=False))
+    # constants are the documented ones (defining expressions evaluated over the module's other constants)
+    vals = {n: const_value(arch, n) for n in ("MAX_7Z_FILE_SIZE", "MAX_MEMORY_SIZE", "MAX_ARCHIVE_FILE_SIZE")}
+    want = {"MAX_7Z_FILE_SIZE": 100 * 1024 * 1024, "MAX_MEMORY_SIZE": 10 * 1024 * 1024, "MAX_ARCHIVE_FILE_SIZE": 50 * 1024 * 1024}
+    o = ground_obligation("C12/archive_extractor.py::limits/module-invariant#documented-values", vals == want,
+                          ", ".join(f"{k}={v}" for k, v in vals.items()), ARCH, kind="module-invariant", backend="ground",
+                          definite=all(v is not None for v in vals.values()))     # a value that cannot be evaluated statically is read natively
+    obls.append(o)
+    # XML parsing of ZIP parts goes through defusedxml: every parser entry point used in zip_utils resolves there
     zu = loader.module("sharepoint2text/parsing/extractors/util/zip_utils.py", repo)
-    ok = zu.imports.get("ET", "").startswith("defusedxml")
-    obls.append(ground_obligation("C12/zip_utils.py::read_zip_xml_root/policy#xml-parsed-with-defusedxml", ok, str(zu.imports.get("ET")), "zip_utils.py"))
+    from contracts import c12_cost
+    entries = c12_cost.xml_entries(zu)
+    bad = [full for (full, _line) in entries if not full.startswith("defusedxml.")]
+    obls.append(ground_obligation("C12/zip_utils.py::read_zip_xml_root/policy#xml-parsed-with-defusedxml", bool(entries) and not bad,
+                                  "; ".join(bad) or ", ".join(sorted({e[0] for e in entries})) or "no XML parser entry point found", "zip_utils.py", definite=False))
     return {"obligations": obls, "functions": fns}
 
 
@@ -279,9 +677,35 @@ def _cost(name):
     return run
 
 
+def _native_scope(which):
+    """BOUNDED: a directed native scope of the replayer, run on every check.  A failing input is a violation with its replay; no
+    failing input is `bounded-ok` (never counted as discharged)."""
+    def run(repo, tier):
+        import json
+        import os
+        import subprocess
+        oid = f"C12/package/native-scope#{which}"
+        root = os.path.dirname(os.path.dirname(os.path.abspath(__file__)))
+        try:
+            p = subprocess.run(["/venv/bin/python", os.path.join(root, "replay", "run.py")], input=json.dumps({"property": "C12", "obligation": oid, "extra": {"scope": which}, "repo": repo}),
+                               capture_output=True, text=True, timeout=600, cwd=root, env=dict(os.environ, VERIF_REPO=repo))
+            lines = [l for l in p.stdout.splitlines() if l.startswith("{")]
+            res = json.loads(lines[-1]) if lines else {"reproduced": False, "note": "replayer gave no result: " + (p.stderr or "")[-300:], "crashed": True}
+        except Exception as e:  # noqa
+            res = {"reproduced": False, "note": f"replayer failed: {e}", "crashed": True}
+        crashed = res.get("crashed") or str(res.get("note", "")).startswith("replayer crashed")
+        status = "refuted" if res.get("reproduced") else ("unknown" if crashed else "bounded-ok")
+        reason = (f"{res.get('inputs')}: expected {res.get('expected')}, observed {res.get('observed')}" if res.get("reproduced") else str(res.get("note", "")))[:600]
+        return {"obligations": [{"id": oid, "kind": "bounded", "bounded": True, "bound": "directed native scope (replay/C12.py::native_scope)", "status": status, "vcs": 1,
+                                 "seconds": 0.0, "backends": {"native": 1}, "witness": None, "reason": reason, "loc": "replay/C12.py", "function": "",
+                                 "replay_hint": {"scope": which}}], "functions": []}
+    run.__name__ = f"native_scope[{which}]"
+    return run
+
+
 def _extra():
     from contracts import c12_cost
-    return [policy, _cost("self_suffix_obligations"), _cost("xml_policy"), _cost("nested_scan_obligations")] + [_carve_task(k) for k in c12_cost.carve_tasks()]
+    return [_native_scope("explicit-limits"), _native_scope("repeat-attribute-classes"), policy, _cost("self_suffix_obligations"), _cost("xml_policy"), _cost("nested_scan_obligations")] + [_carve_task(k) for k in c12_cost.carve_tasks()]
 
 
 EXTRA = _extra()
@@ -313,7 +737,7 @@ def known_findings(kf, violations, repo, tier):
 
 TRUSTED = ["defusedxml forbids entity expansion", "stat().st_size is the size read_file would read"]
 ASSUMED_MODELS = ["pathlib.Path.stat/st_size", "open()", "io.BytesIO.seek/tell (position, SEEK_END = size)", "router contracts (C07)"]
-BOUNDED = []
+BOUNDED = ["native-scope#explicit-limits and native-scope#repeat-attribute-classes: directed native runs of the replayer on every check (never counted as proved)"]
 ASSUMPTIONS = ["peak memory and run time as quantities are not decided (not expressible as contracts); what is decided are the structural causes of super-linear cost: "
                "unbounded repeat expansion (amp-bounded#repeat-site), overlapping carving of a scanned buffer (amp-bounded#carve-while-k: copies of different iterations "
                "are disjoint, so total copy size <= len(buffer)), per-iteration re-slicing (no-self-suffix-rebinding), nested re-scans (nested-scans-skip-the-part-handed-out); "
